@@ -220,6 +220,7 @@ class Property(cssutils.util.Base):
             seq=newseq,
             tokenizer=self._tokenize2(name),
             productions={'IDENT': _ident},
+            new=new,
         )
         wellformed = wellformed and new['wellformed']
 
